@@ -12,7 +12,7 @@
 // harness answers later through Rpc::respond() — or never) and to a method that is not registered.  The peer
 // numbers its requests independently of the Rpc, preferably with exactly the ids the Rpc uses for its own requests.
 //
-// ops:  cfg proto timeout_s | request sync sarg pay | then kind sync sarg | notify pay | deliver k how pay |
+// ops:  cfg proto timeout_s log | request sync sarg pay | then kind sync sarg | notify pay | deliver k how pay |
 //       unknown sel how | advance ms | peerreq idsel kind pay delay_ms | peernotify kind pay | relife timeout_s
 //       (see NOTES.md for the argument tables)
 //
@@ -100,7 +100,7 @@ Json paramsFor(int pay, int idx) {
 }
 
 struct World {
-  int proto_kind = P_RAW, timeout_s = 1;
+  int proto_kind = P_RAW, timeout_s = 1; bool log = false;   // log: traffic logging on (setLogEnable + a registered log channel)
   vloop::Clock clk;
   std::unique_ptr<tbox::event::Loop> loop;
   std::unique_ptr<Proto> proto;
@@ -476,7 +476,7 @@ std::string run(const Scenario &s, CaseInfo &info) {
   std::vector<TopOp> tops;
   for (auto &op : s.ops) {
     switch (op.code) {
-      case CFG: w.proto_kind = (int)op.in(0, 0, NPROTO - 1); w.timeout_s = (int)direct(op, 1, 1, 5); break;
+      case CFG: w.proto_kind = (int)op.in(0, 0, NPROTO - 1); w.timeout_s = (int)direct(op, 1, 1, 5); w.log = op.in(2, 0, 1) != 0; break;
       case REQUEST: { TopOp t{REQUEST, &op, (int)w.chains.size()}; w.chains.emplace_back(); tops.push_back(t); break; }
       case THEN: if (!w.chains.empty() && (int)w.chains.back().size() < kMaxChain && !tops.empty())
                    w.chains.back().push_back(ThenSpec{(int)op.in(0, 0, 1), (int)op.in(1, 0, NSYNC - 1), (int)op.in(2, 0, 63)});
@@ -489,7 +489,10 @@ std::string run(const Scenario &s, CaseInfo &info) {
   // a `then` chain belongs to the most recent `request`; make sure later non-request ops do not detach it (they do not: chains.back())
   // ---- set up the real objects
   w.loop.reset(tbox::event::Loop::New());
+  std::unique_ptr<TrafficLog> tl;
+  if (w.log) tl.reset(new TrafficLog);
   w.proto = mkProto(w.proto_kind);
+  if (w.log) TrafficLog::enable(*w.proto, "c14-rpc");
   w.rpc.reset(new tbox::jsonrpc::Rpc(w.loop.get()));
   w.rpc->initialize(w.proto.get(), w.timeout_s);
   w.proto->setSendCallback([&w](const void *p, size_t n) { w.onSend(p, n); });
@@ -576,6 +579,7 @@ std::string run(const Scenario &s, CaseInfo &info) {
   if (!err.empty()) return std::string(kProtoName[w.proto_kind]) + ", timeout " + std::to_string(w.timeout_s) + " s: " + err;
 
   info.cls(kProtoName[w.proto_kind]);
+  info.cls_if(w.log, "traffic_logging_on");
   info.cls_if(w.st_pending_resp, "response_while_pending");
   info.cls_if(w.st_err_resp, "error_response_while_pending");
   info.cls_if(w.st_late, "late_response_after_timeout");
@@ -621,7 +625,7 @@ Scenario expand(uint64_t seed) {
   auto mk = [&v](int code, std::vector<int64_t> a) { Op o; o.code = code; o.a = std::move(a); v.push_back(std::move(o)); };
   bool collide = r.chance(1, 3);   // a third of the cases contain the id-collision pattern below (needs timeout >= 2 s to be observable)
   int timeout = collide ? (int)r.pick({{4, 2}, {3, 3}, {1, 5}}) : (int)r.pick({{3, 1}, {3, 2}, {2, 3}, {1, 5}});
-  mk(CFG, {r.rng(0, 2), timeout});
+  mk(CFG, {r.rng(0, 2), timeout, r.pick({{2, 0}, {1, 1}})});
   int n = (int)r.pick({{1, 2}, {3, 6}, {3, 12}, {2, 24}});
   auto sync = [&]() { return r.pick({{16, SY_NONE}, {4, SY_RESULT}, {2, SY_ERROR}, {2, SY_TWICE}, {4, SY_OTHER}, {2, SY_UNKNOWN}, {4, SY_PARENT}, {1, SY_PEERREQ}}); };
   // (half of them right at the start: later on, nested requests issued by timeout callbacks during the wait often take the id first)
@@ -680,7 +684,7 @@ Scenario expand(uint64_t seed) {
 SubDef def = [] {
   SubDef d; d.name = "rpc_once";
   d.op_names = {"cfg", "request", "then", "notify", "deliver", "unknown", "advance", "peerreq", "peernotify", "relife"};
-  d.op_arity = {2, 3, 3, 1, 3, 2, 1, 4, 2, 1};
+  d.op_arity = {3, 3, 3, 1, 3, 2, 1, 4, 2, 1};
   d.nt_rule = "a response was delivered for a request that had already completed with the timeout error, and a completion callback issued a further request or notification";
   d.run = run;
 #ifndef VERIF_ENGINE_FUZZ
